@@ -248,13 +248,64 @@ def separator_runs(unit, fn):
             continue
         seen.add(key)
         out.append((sibs[lo:hi + 1], cur, w))
+    # the skipping may live in a helper of the unit that advances the caller's cursor through a pointer to it
+    # (`skip(&src)`): each call site is one run, evaluated on the helper's body with `*param` as the cursor
+    for c in A.calls_in(unit.body(fn)):
+        nm = A.callee_name(c)
+        if nm in ("skip_fmt", "skip_fmt_null", "skip_while") or nm is None:
+            continue
+        for h in unit.functions.get(nm, []):
+            hb = unit.body(h)
+            if hb is None:
+                continue
+            for w in A.walk(hb):
+                if w.get("kind") not in ("WhileStmt", "ForStmt", "DoStmt"):
+                    continue
+                cond = [x for x in A.kids(w) if x.get("kind") not in ("CompoundStmt", "NullStmt", "DeclStmt")]
+                hit = None
+                for cnd in cond:
+                    cc = A.strip_casts(cnd)
+                    if cc.get("kind") == "BinaryOperator" and cc.get("opcode") == "==" and ord("%") in (A.int_literal(A.kids(cc)[0]), A.int_literal(A.kids(cc)[1])):
+                        hit = cc
+                if hit is None:
+                    continue
+                ps = {p_["id"] for p_ in unit.params(h) if (A.qtype(p_) or "").count("*") == 2}
+                used = [y["referencedDecl"]["id"] for y in A.walk(hit) if y.get("kind") == "DeclRefExpr" and y["referencedDecl"]["id"] in ps]
+                if len(used) == 1 and (c.get("id"), used[0]) not in seen:
+                    seen.add((c.get("id"), used[0]))
+                    out.append((A.kids(hb), ("through", used[0]), c))
     return out
 
 
 def run_separator(unit, stmts, cur_id, text):
-    """evaluate the skipping statements with the cursor at text[0]; returns the final cursor index"""
+    """evaluate the skipping statements with the cursor at text[0]; returns the final cursor index.
+    cur_id is the cursor's declaration, or ("through", P) when the statements reach the cursor as `*P`"""
+    through = isinstance(cur_id, tuple)
+    if through:
+        cur_id = cur_id[1]
+
+    def is_cursor(e):
+        e = A.strip_casts(e)
+        if through:
+            return e.get("kind") == "UnaryOperator" and e.get("opcode") == "*" and A.ref_id(A.kids(e)[0]) == cur_id
+        return e.get("kind") == "DeclRefExpr" and e["referencedDecl"]["id"] == cur_id
+
     def hook(n, ev):
         k = n.get("kind")
+        if through:
+            if k == "UnaryOperator" and n.get("opcode") == "*" and is_cursor(A.kids(n)[0]):
+                p = ev.env[cur_id] - 4096
+                return ord(text[p]) if 0 <= p < len(text) else 0
+            if k == "UnaryOperator" and n.get("opcode") in ("++", "--") and is_cursor(A.kids(n)[0]):
+                old = ev.env[cur_id]
+                ev.env[cur_id] = old + (1 if n.get("opcode") == "++" else -1)
+                return old if n.get("isPostfix") else ev.env[cur_id]
+            if k == "CompoundAssignOperator" and is_cursor(A.kids(n)[0]):
+                d_ = ev.ev(A.kids(n)[1])
+                ev.env[cur_id] += d_ if n.get("opcode") == "+=" else -d_
+                return ev.env[cur_id]
+            if k == "UnaryOperator" and n.get("opcode") == "*" and is_cursor(n):
+                return ev.env[cur_id]
         if k == "CallExpr":
             name = A.callee_name(n)
             args = A.kids(n)[1:]
@@ -298,8 +349,11 @@ def run_separator(unit, stmts, cur_id, text):
         return NotImplemented
     BASE = 4096      # the cursor is a non-null pointer: text[k] lives at BASE + k
     ev = FD.Eval(env={cur_id: BASE}, node_hook=hook)
-    for s_ in stmts:
-        ev.run(s_)
+    try:
+        for s_ in stmts:
+            ev.run(s_)
+    except FD._Return:
+        pass             # a helper's `return <bytes skipped>`
     return ev.env[cur_id] - BASE
 
 
